@@ -7,11 +7,13 @@
 #![allow(clippy::too_many_arguments)]
 #![allow(dead_code)]
 
+pub mod hooks;
 pub mod monitors;
 pub mod probes;
 pub mod props;
 pub mod refmodel;
 pub mod rig;
+pub mod scene;
 pub mod util;
 
 use std::collections::{BTreeMap, HashSet};
@@ -119,6 +121,7 @@ fn run(args: &[String]) -> i32 {
 	}
 	let (mut ctx, out) = parse_ctx(args);
 	monitors::install_panic_hook(ctx.verbose);
+	hooks::install();
 	#[cfg(not(miri))]
 	{
 		let tid = monitors::current_tid();
@@ -163,6 +166,7 @@ fn confirm(args: &[String]) -> i32 {
 		return 2;
 	}
 	monitors::install_panic_hook(false);
+	hooks::install();
 	#[cfg(not(miri))]
 	{
 		let tid = monitors::current_tid();
